@@ -50,6 +50,13 @@ def jobs(tier):
         base = {"max": mx, "min": mn, "tasks": ["ret"], "clients": [["start"], ["enq0", "await0"]],
                 "props": ["exactly_once", "results", "bounded", "nodeadlock"], "window_at": 0, "hold": [1], "twin_prog": "progress"}
         out.append((dict(base, name="c09-start-race-max{0}min{1}".format(mx, mn)), dict(full, depth=full["depth"] + 2)))
+        # one transient Thread.start() failure (at most one attempt fails, at any point of the window):
+        # the next enqueue must bring a worker up and both tasks run
+        ops = ["start", "enq0", "enq1", "await0", "await1"]
+        for k in (0, 1, 2):
+            base = {"max": mx, "min": mn, "tasks": ["ret", "ret"], "clients": [ops], "W": mx + 2, "start_failure": 1,
+                    "props": ["exactly_once", "results", "bounded", "nodeadlock"], "window_at": k, "twin_prog": "progress"}
+            out.append((dict(base, name="c09-startfail1-max{0}min{1}-op{2}".format(mx, mn, k)), full))
         # two enqueuing clients, from the constructed pool
         base = {"max": mx, "min": mn, "tasks": ["ret", "ret"], "clients": [["start", "enq0", "await0"], ["enq1", "await1"]],
                 "props": ["exactly_once", "results", "bounded", "nodeadlock"], "window_at": 0, "twin_prog": "progress", "hold": [1]}
@@ -89,7 +96,7 @@ def run(report, tier):
                       "window start states other than those reached by the round-robin prefix", "daemon-thread teardown at interpreter exit"]
     report.assumptions = ["primitive models of Event/RLock/Thread/Queue (validated by replay of every witness)",
                           "for-loops over the thread list iterate over a snapshot taken at loop entry",
-                          "Thread.start() failure only in the scenarios that enable it"]
+                          "Thread.start() failure only in the scenarios that enable it (startfail1: at most one failing attempt)"]
     report.trusted_base = ["z3 5.1.0", "engine/ts translator + primitive models"]
     driver.run_all("props.poolscn", js, report)
     report.extra["windows"] = len(js)
